@@ -143,7 +143,10 @@ impl Ord for Value {
             (Value::Bool(l), Value::Bool(r)) => l.cmp(r),
             (Value::DateTime(l), Value::DateTime(r)) => l.cmp(r),
             (Value::Duration(l), Value::Duration(r)) => l.cmp(r),
-            (Value::Obj(l), Value::Obj(r)) => l.cmp(r),
+            // Objects and arrays compare by content: entries sorted by key, elements in
+            // order (im::HashMap's own Ord walks both maps in their private iteration order).
+            (Value::Obj(l), Value::Obj(r)) => l.iter().sorted().cmp(r.iter().sorted()),
+            (Value::Array(l), Value::Array(r)) => l.cmp(r),
             // All these remaining cases aren't directly comparable
             (unrelated_l, unrelated_r) => unrelated_l.rank().cmp(&unrelated_r.rank()),
         }
